@@ -4,6 +4,7 @@ import (
 	"errors"
 	goio "io"
 	"os"
+	"sort"
 
 	"github.com/evolbioinfo/gotree/io"
 	"github.com/evolbioinfo/gotree/tree"
@@ -196,10 +197,16 @@ func writeNameMap(namemap map[string]string, outfile string) (err error) {
 	if f, err = openWriteFile(outfile); err != nil {
 		return
 	}
-	for old, new := range namemap {
+	// Old names in sorted order: the output must not depend on map iteration order
+	olds := make([]string, 0, len(namemap))
+	for old := range namemap {
+		olds = append(olds, old)
+	}
+	sort.Strings(olds)
+	for _, old := range olds {
 		f.WriteString(old)
 		f.WriteString("\t")
-		f.WriteString(new)
+		f.WriteString(namemap[old])
 		f.WriteString("\n")
 	}
 	f.Close()
